@@ -214,6 +214,7 @@ func init() {
 	V("AllocLimit", func(fr *frame, args []value) value { needEx(fr).AllocLimit = asInt64(args[0]); return nil })
 	V("ForkLimit", func(fr *frame, args []value) value { needEx(fr).ForkLimit = int(asInt64(args[0])); return nil })
 	V("Tier", func(fr *frame, args []value) value { return Tier })
+	V("FreshASCII", func(fr *frame, args []value) value { needEx(fr).FreshASCII = true; return nil })
 	V("AllowTagsInFresh", func(fr *frame, args []value) value { needEx(fr).AllowTagsInFresh = true; return nil })
 	V("Log", func(fr *frame, args []value) value { return nil })
 
@@ -256,6 +257,16 @@ func (e *Explorer) FreshCat(cat string, n int) []value {
 	for i := range out {
 		ts[i] = e.Ctx.Var(fmt.Sprintf("fr_%s_%d_%d", cat, k, i), 8)
 		out[i] = sym{ts[i]}
+	}
+	if e.FreshASCII && (cat == "ct" || cat == "wrap" || cat == "key") {
+		c := e.Ctx
+		var cs []*smt.Term
+		for _, t := range ts {
+			cs = append(cs, c.Cmp(smt.OpULt, t, c.Const(0x80, 8)))
+		}
+		if len(cs) > 0 {
+			e.addPCRaw(c.BAnd(cs...))
+		}
 	}
 	if !e.AllowTagsInFresh && (cat == "ct" || cat == "wrap" || cat == "key") {
 		// modelling assumption (stated in the evidence): opaque crypto outputs contain no envelope tag sequence
